@@ -189,6 +189,13 @@ def run(F, R, tier):
         R.ob("C02-e", "check_types = kind.include_types() && is_checkable(..)", any((x.node.get("fn") or "").endswith("GraphKind::include_types") for x in conds if x.kind == "cond") and any((x.node.get("fn") or "").endswith("is_checkable") for x in conds if x.kind == "cond"),
              "check_types no longer requires include_types && is_checkable", where(ct[0]))
 
+    # ---------------- C02-w ------------------------------------------------
+    # the error listing can only report what the walk yields: a specifier that
+    # is marked seen without being queued is skipped with everything below it
+    from . import c15
+    wb = [b for b in F.bodies if b.get("self_adt") == "graph::ModuleEntryIterator" and not b.get("derived")]
+    c15.walker_enqueue(F, R, wb, tag="C02-w", pid="C02")
+
     # ---------------- C02-f ------------------------------------------------
     va = F.body("graph::ModuleGraph::valid")
     wo = [n for n in va["_nodes"] if n["k"] == "Struct" and n.get("adt") == "graph::WalkOptions"]
